@@ -213,6 +213,9 @@ func Triggers(p *Package) []Trigger {
 					dropAnyMembers(a.Ret, map[*StructDecl]bool{})
 				})
 			}
+			if a.Kind == "prop" && len(a.Params) == 1 && isAny(a.Params[0].T) {
+				add("prop_any_roundtrip", where+" is of type any", func() { a.Params[0].T = Sc("str") })
+			}
 			if a.Kind == "prop" && len(a.Params) == 1 && mentionsAny(a.Params[0].T) {
 				add("prop_any_value_shadow", where+" has a dynamic value in its type expression", func() {
 					a.Params[0].T.Walk(func(x *IType) {
